@@ -67,7 +67,8 @@ def gen_series(rng, n, kind=None):
 def gen_history(rng, max_ops):
   n_test = rng.choice([1, 2, 7])
   n = rng.choice([3, 4, 5, 8, 10, 12, 20, 24])
-  ops = [('init', gen_series(rng, n), n_test, rng.choice([0.8, 0.9, 0.99]))]
+  # in a third of the histories the caller keeps one array per series and assigns it again after changing its contents
+  ops = [('init', gen_series(rng, n), n_test, rng.choice([0.8, 0.9, 0.99]), rng.random() < 0.33)]
   cur_n = n
   base = None
   for _ in range(rng.randint(3, max_ops)):
@@ -124,7 +125,21 @@ def n_conj(par, y, x):
 def run_history(ops):
   """-> (wire lines, list of per-read records)"""
   from matched_markets.methodology import tbrmmdiagnostics as D
-  _, y0, n_test, min_corr = ops[0]
+  _, y0, n_test, min_corr = ops[0][:4]
+  inplace = len(ops[0]) > 4 and bool(ops[0][4])
+  buf = {'x': None, 'y': None}
+
+  def given(which, values):
+    """what the caller hands over: a fresh list, or (in-place histories) the caller's own array, refilled"""
+    if not inplace:
+      return values
+    import numpy as np
+    b = buf[which]
+    if b is None or len(b) != len(values):
+      b = buf[which] = np.array(values, dtype=float)
+    else:
+      b[:] = values
+    return b
   par = make_par(n_test, min_corr)
   series = {0: y0}
   nxt = 1
@@ -135,7 +150,7 @@ def run_history(ops):
   reads = []
   for op in ops[1:]:
     if op[0] == 'setX':
-      d.x = op[1]
+      d.x = given('x', op[1])
       series[nxt] = op[1]; cur_x = nxt; nxt += 1
       lines.append('setX')
     elif op[0] == 'badSetX':
@@ -151,7 +166,7 @@ def run_history(ops):
       cur_x = None
       lines.append('clearX')
     elif op[0] == 'setY':
-      d.y = op[1]
+      d.y = given('y', op[1])
       series[nxt] = op[1]; cur_y = nxt; nxt += 1; cur_x = None
       lines.append(f'setY {int(short(op[1]))}')
     else:
